@@ -421,6 +421,9 @@ def verify_mutator(obs, world, cname, mname, contract, pid_map, timeout=20000, i
                     emit("C09", f"view/{cn}", [z3.Not(R), *bond_norm(pts, sorts), g_, got != exp2], f"view component {cn} differs from the reference transition", skolems=pts)
                 for wname, vs, body, _ in GM.wf_raw(v1, cname, tag="n", bound=alloc_top(h1)):
                     emit("C09", f"wf/{wname}", [z3.Not(R), z3.Not(body)], f"representation invariant {wname} not re-established", skolems=vs)
+                autos = [f_ for f_, val_ in g1.fields.items() if getattr(val_, "auto", False)]
+                obs.append(Ob(f"C09/{base}/wf/tables-are-plain-dicts#path{i}", kind, FAILED if autos else DISCHARGED, "ast",
+                              detail=f"{autos} is a collections.defaultdict after the operation: a look-up of an absent key through the public views would insert it" if autos else ""))
         # intermediate obligations of this path (callee pre-conditions, loop invariants)
         for aname, apc, aass, af in p.asserts:
             if pid_map.get("C09"):
